@@ -2,7 +2,7 @@
 (* Validates recorded pattern matching of the real processor against the definition of XSLT 5.2 *)
 (* (XPathSem!Matches / MatchSet): event [e |-> "Match", doc, pat (AST), vars, matched | error]  *)
 (* must report exactly the nodes of the document that match.                                     *)
-EXTENDS XPathSem, Json, IOUtils
+EXTENDS TemplateRules, Json, IOUtils
 VARIABLES l, st, failed, done
 
 Forest == TLCGet(2)
@@ -10,12 +10,36 @@ LoadNodes(s) == {<<x[1], x[2], x[3]>> : x \in Range(s)}
 Ctx(ev) == [f |-> Forest, n |-> <<ev.doc, 1, 0>>, pos |-> 1, size |-> 1, vars |-> <<>>,
             cur |-> <<ev.doc, 1, 0>>, keys |-> IF "keys" \in DOMAIN ev THEN ev.keys ELSE <<>>]
 
+(* What the stylesheet files a pattern under (XPath::getTargetData, reported per alternative as [s (key string), t (node  *)
+(* kind), p8 (default priority in eighths)]) must be consistent with the pattern: as many entries as alternatives, the       *)
+(* default priority of 5.5, and every node the alternative matches is one the key covers - the premise on which              *)
+(* PatternTablesImpl (the rule tables of a module, MC_PatternTables) finds the rule for a node.                             *)
+P8(x) == IF x.neg THEN 0 - x.m ELSE x.m
+CoversT(F, t, n) ==
+  LET k == KindOf(F, n) IN
+  IF t.s = <<35, 116, 101, 120, 116>> THEN k = "text"                                  \* #text
+  ELSE IF t.s = <<35, 99, 111, 109, 109, 101, 110, 116>> THEN k = "comment"           \* #comment
+  ELSE IF t.s = <<35, 112, 105>> THEN k = "pi"                                          \* #pi
+  ELSE IF t.s = <<47>> THEN k = "root"                                                   \* /
+  ELSE IF t.s = <<35, 110, 111, 100, 101>> THEN k \in {"elem", "attr", "text", "comment", "pi"}    \* #node
+  ELSE IF t.s = <<42>> THEN (t.t = "any" \/ (t.t = "elem" /\ k = "elem") \/ (t.t = "attr" /\ k = "attr"))      \* *
+  ELSE (t.t = "elem" /\ k = "elem" /\ LocalOf(F, n) = t.s) \/ (t.t = "attr" /\ k = "attr" /\ LocalOf(F, n) = t.s)
+TargetFaults(ev) ==
+  IF "targets" \notin DOMAIN ev THEN {}
+  ELSE LET as == Alts(ev.pat)  ts == ev.targets IN
+       IF Len(as) # Len(ts) THEN {"number of targets"}
+       ELSE {"default priority of alternative" : i \in {i \in 1..Len(as) : ts[i].p8 # P8(DefaultPriority(as[i]))}}
+            \cup {"a matching node is outside the target of alternative" :
+                     i \in {i \in 1..Len(as) : \E n \in MatchSet(as[i], ev.doc, Ctx(ev)) : ~CoversT(Forest, ts[i], n)}}
+
 C09Step(s, ev) ==
   LET want == MatchSet(ev.pat, ev.doc, Ctx(ev))
       isErr == "error" \in DOMAIN ev
       got == IF isErr THEN {} ELSE LoadNodes(ev.matched)
-  IN [ok |-> ~isErr /\ want = got, st |-> s, cont |-> TRUE,
-      msg |-> IF isErr THEN "error" ELSE "missing " \o ToString(want \ got) \o " extra " \o ToString(got \ want)]
+      tf == IF isErr THEN {} ELSE TargetFaults(ev)
+  IN [ok |-> ~isErr /\ want = got /\ tf = {}, st |-> s, cont |-> TRUE,
+      msg |-> IF isErr THEN "error" ELSE IF want # got THEN "missing " \o ToString(want \ got) \o " extra " \o ToString(got \ want)
+              ELSE IF tf = {} THEN "" ELSE "TARGET: " \o ToString(tf) \o " reported " \o ToString(ev.targets)]
 
 TraceInit2 == TLCSet(2, ndJsonDeserialize(IOEnv.DOCS))
 INSTANCE TraceBase WITH StInit <- 0, Step <- C09Step
